@@ -545,5 +545,9 @@ example : (storeAfter Store.empty {} exOrder >>= fun s => txDetails s 2) =
 example : (storeAfter Store.empty {} exOrder >>= fun s => rangeTransactions s 0 (-1)).map
     (·.map (·.map (·.tx.hash))) = .ok [[2], [4, 9]] := by decide
 example : (ledgerAfter {} exOrder).pool.map (·.hash) = [9, 4] := by decide
+example : ConsistentHistory {} exOrder := by
+  unfold exOrder
+  refine ⟨?_, ?_, ?_, trivial⟩ <;>
+    exact ⟨by decide, by decide, fun t ht => by cases ht; exact ⟨by decide, by decide⟩⟩
 
 end TxStore.C13
